@@ -1074,4 +1074,44 @@ theorem read_snapshot {p : Prog} (hwf : WF p = true) (ops : List Op) (m : Nat) (
   simp only at this
   rw [this]; rfl
 
+/-! ## a memo computes at most once between two writes -/
+
+/-- what one top-level read does to the run counters -/
+theorem read_step_rel {p : Prog} (hp : MemoOK p) {s : State} (h : TopJ p s) (a : Nat) :
+    RunsX s (step p s (.read a)).1 ∧ RunRel s (step p s (.read a)).1 ∧
+    (∀ i, (s.get i).st = .clean → ((step p s (.read a)).1.get i).st = .clean) := by
+  simp only [step]
+  have htrack : track s a = s := by unfold track; rw [h.quiet.obs]
+  unfold readNode
+  rw [htrack]
+  simp only
+  cases hk : (s.get a).kind with
+  | eff => exact ⟨RunsX.refl s, RunRel.of_eq (fun _ => rfl), fun _ hi => hi⟩
+  | sig => exact ⟨RunsX.refl s, RunRel.of_eq (fun _ => rfl), fun _ hi => hi⟩
+  | memo =>
+    simp only
+    have hm : a < p.length := h.quiet.inv.memo_lt hk
+    have post := upd_ok hp (fuelFor p) s a h.quiet.inv (by simp only [fuelFor]; omega) (h.quiet.idle a)
+      (fun r hr => by rw [h.quiet.idle r] at hr; cases hr)
+    exact ⟨post.frame.runsx, post.runRel, fun i hi => (post.frame.clean i hi).1⟩
+
+theorem two_reads_at_most_once {p : Prog} (hwf : WF p = true) (ops : List Op) (a b m : Nat) :
+    ∃ suf, (step p (step p (run p ops) (.read a)).1 (.read b)).1.log = (run p ops).log ++ suf ∧
+      countRan m suf ≤ 1 := by
+  have hp := memoOK_of_wf hwf
+  have h0 := run_topJ hp (effOKU_of_wf hwf) ops
+  generalize run p ops = s at h0
+  have r1 := read_step_rel hp h0 a
+  have h1 := step_topJ hp (effOKU_of_wf hwf) h0 (.read a)
+  generalize (step p s (.read a)).1 = s1 at r1 h1
+  have r2 := read_step_rel hp h1 b
+  generalize (step p s1 (.read b)).1 = s2 at r2
+  obtain ⟨suf, hs, hr⟩ := r1.1.trans r2.1
+  have hrel := r1.2.1.trans r2.2.1 r1.2.2 r2.2.2
+  refine ⟨suf, hs, ?_⟩
+  have := hr m
+  rcases hrel m with h' | h'
+  · omega
+  · omega
+
 end Leptos.Reactive
